@@ -405,3 +405,56 @@ PROPS["C04"] = {
         "AddressSanitizer build of the same sweep. Lengths >= 2^43 and real memory exhaustion are not provoked."),
     "vacuity": need(["documented_panics_observed", "hostile_calls_allocation_failure_abort", "public_functions_cross_checked"], answers=False),
 }
+
+
+PROPS["C14"] = {
+    "bin": "mc_space",
+    "quick": [step("mc_space", CHK)],
+    "thorough": [step("mc_space", CHK), step("mc_space", FAST)],
+    "evidence": exploration_evidence(
+        "bounded-exhaustive grid with a counting global allocator: n in {0,1,255..257, 2^k-1, 2^k, 2^k+1 (k=10..17, thorough ..20), "
+        "3*2^k/2+1} x largest symbol in {0,1,3,4,15,16,255,256,999, 2^32-ish, 2^64-ish} x {periodic, blocks, rare-symbol} x "
+        "{QWT256, QWT512, QWT256Pfs, QWT512Pfs, WT} x construction paths {new, From<Vec>, collect, collect from an iterator "
+        "without size hint}; RSQVector256/512 and QVector (4 paths), RSWide (new, From, built from the positions of the ones). "
+        "Oracle: 8*(live heap bytes + size_of_val) <= (1 + r + 0.01) * B * n * L + 8*(2048*L + 512) with B=2, L=max(1,ceil(bitlen(m)/2)), "
+        "r = 1/8 (block 256) or 1/16 (512), +0.01 with prefetch support; B=1, L=bitlen(m), r=0.05 for WT and RSWide. The 2^k+1 "
+        "lengths sit just after a capacity doubling. Non-trivial = n > 1000.",
+        TRUST + ["the counting #[global_allocator] (requested sizes, not allocator slop)"],
+        "quick: n <= 131073; thorough: n <= 2^20+1 and both profiles. The per-level constant (2048 bytes) and the 1% head-room are "
+        "calibrated on the current tree (largest case uses 97.7% of its bound)."),
+    "vacuity": need(["large_cases"]),
+}
+
+PROPS["C15"] = {
+    "bin": "mc_space",
+    "quick": [step("mc_space", CHK)],
+    "thorough": [step("mc_space", CHK), step("mc_space", FAST)],
+    "evidence": exploration_evidence(
+        "bounded-exhaustive grid with a counting allocator: 16 frequency profiles (uniform over 2,4,5,16,17,200,256 symbols, "
+        "geometric and heavy-tail skews, single symbol, CHAIN deep codes) x scales x 3 arrangements (grouped ascending - the "
+        "sequence ends in a long run of the heaviest symbol -, grouped descending, round robin) x 2 symbol assignments, drifting "
+        "distributions (constant phase then uniform phase and the reverse, n up to 3*65536), large uniform alphabets, x HQWT256/512 "
+        "(+Pfs) and HWT. The harness computes H0. Oracle: 8*(heap+size_of_val) <= (1+r+0.01)*n*(H0+2) [HWT: H0+1] + 8*(2048*depth + "
+        "tables) with tables = 10*(m+1) + 40*distinct + 4096 bytes, and heap - tables <= 1.01 * heap(plain tree over the same "
+        "sequence) + 2048*levels. Non-trivial = n > 1000.",
+        TRUST + ["the counting allocator", "minimum_redundancy for the code depth used in the additive term"],
+        "quick: n <= 2^18; thorough: n <= 2^21, both profiles."),
+    "vacuity": need(["cases_with_entropy_well_below_log_sigma", "cases_with_one_distinct_symbol"]),
+}
+
+PROPS["C16"] = {
+    "bin": "mc_space",
+    "quick": [step("mc_space", CHK)],
+    "thorough": [step("mc_space", CHK), step("mc_space", FAST)],
+    "evidence": exploration_evidence(
+        "bounded-exhaustive grid with a counting allocator over every public type implementing SpaceUsage: the C14 grid for all "
+        "ten tree aliases, RSQVector256/512, QVector, RSWide, RSNarrow, BitVector, BitVectorMut in 7 states (collected, "
+        "with_capacity untouched, with_capacity then pushed, grown by push, shrunk, with_zeros, From<BitVector>), DArray<false/"
+        "true> over dense / sparse / mixed group shapes and 10 bit patterns. Oracle: |space_usage_byte() - (live heap + "
+        "size_of_val)| <= 0.02*heap + 256*components + 512 (+ 8*(m+1) + 40*distinct + 2304 for Huffman tables); KiB/MiB/GiB "
+        "equal the byte count divided by 2^10/2^20/2^30 exactly. Non-trivial = n > 1000.",
+        TRUST + ["the counting allocator"],
+        "quick: n <= 131073 (DArray up to 320000 bits); thorough: n <= 2^20+1, both profiles. Components below 2% of a structure "
+        "are inside the tolerance the property grants."),
+    "vacuity": need(["empty_vectors_with_reserved_capacity", "sparse_darray_cases"]),
+}
